@@ -519,6 +519,21 @@ def edge_facts(b, e):
     return facts
 
 
+def _plain_getter(eff, path):
+    """field name when the local function `path` is `fn f(&self) -> T { self.<field> }` (nothing else)"""
+    try:
+        g = eff.getter_summary(path)
+    except Exception:
+        return None
+    if g is None:
+        return None
+    from ..pat import unref
+    g = deep_strip(g)
+    if g[0] == 'field' and isinstance(g[2], str) and unref(g[1])[:2] == ('param', 1):
+        return g[2]
+    return None
+
+
 def _semantic_need(b, e, row, m):
     """the needed fact of a table row, when it has the form `Lt({n}, X)` / `Le({n}, X)`, may also follow from the ordering closure
     (e.g. n is the item of `lo..min(X, ..)`) instead of being a literal dominating comparison"""
@@ -541,6 +556,10 @@ def _semantic_need(b, e, row, m):
             pool.extend(subterms(deep_strip(r[3])))
     ns = [x for x in pool if sig(x) == want]
     others = [x for x in pool if re.fullmatch(other_rx, sig(x))]
+    lit = re.fullmatch(r"\\\$(\d+)\\\.(\w+)", other_rx)
+    if lit:
+        # the bound is a field of a parameter: it need not occur in the operands as such (it may be reached through its getter)
+        others.append(('field', ('param', int(lit.group(1)), b.local_name(int(lit.group(1)))), lit.group(2)))
     for n_ in ns[:4]:
         for o_ in others[:8]:
             if (B.lt(n_, o_) if rel == "Lt" else B.le(n_, o_)):
@@ -788,6 +807,7 @@ def run(ctx, progs):
         _fs = prog._c07_failsum
         _bounds.set_sum_hook(lambda path, _fs=_fs: (_fs.S.checked_sum(_fs._body(path).id) if _fs._body(path) is not None else None))
         _bounds.set_ret_hook(lambda path, prog=prog: _returns_param(prog, path))
+        _bounds.set_getter_hook(lambda path, eff=eff: _plain_getter(eff, path))
         n_bodies = n_edges = n_auto = n_tab = 0
         n_loops = 0
         for b in prog.bodies:
